@@ -263,8 +263,8 @@ func c01ExtCases(tier string) []c01Case {
 	for _, e := range append(c01ExtTypeCases(tier), c01ExtOtherCases()...) {
 		if e.HasOp {
 			add(e, "server")
-			add(e, "client")
 			if tier == "thorough" {
+				add(e, "client")
 				add(e, "cli")
 			}
 			continue
